@@ -5,7 +5,7 @@ namespace OP2Utility
 {
 	void ArtFile::VerifyImageIndexInBounds(std::size_t index)
 	{
-		if (index > imageMetas.size()) {
+		if (index >= imageMetas.size()) {
 			throw std::runtime_error("An index of " + std::to_string(index) + " exceeds range of images");
 		}
 	}
